@@ -20,7 +20,9 @@ EXTENDS GraphAbs
 CONSTANTS
   DEV_StaleSat,      \* remove_node / unregister_package do not clear satisfied bits of surviving targets
   DEV_StaleExports,  \* remove_node / unexport release only the node's last export name
-  DEV_DoubleRemove   \* remove_node removes a dependant reachable twice a second time (panic)
+  DEV_DoubleRemove,  \* remove_node removes a dependant reachable twice a second time (panic)
+  DEV_UndefDep,      \* a definition whose dependency is not defined encodes to an invalid component
+  DEV_DefRename      \* exporting a definition under a further name replaces the name it is encoded under
 
 VARIABLES g, hist
 vars == <<g, hist>>
@@ -208,6 +210,22 @@ IImportsImplicit(s) ==
 
 \* encode(): arguments come from the edges, implicit imports from the satisfied set; an argument
 \* that is in neither is missing from the instantiation and the output does not validate
+\* known-finding shapes (see /verif/known_findings.json): state predicates naming exactly the
+\* situations in which the code as it stands deviates from the contract
+KF_UndefDep(s) ==
+  \E t \in DOMAIN s.defined : ~(DefDeps[t] \subseteq DOMAIN s.defined)
+KF_DefRename(s) ==
+  \E n \in ILive(s) : s.nodes[n].k = "def" /\ Cardinality(NamesOf(s, n)) > 1
+KnownFindings(s) ==
+  (IF KF_UndefDep(s) THEN {"undefined-dependency"} ELSE {})
+  \cup (IF KF_DefRename(s) THEN {"definition-renamed"} ELSE {})
+
+\* the export names the code emits: a definition is exported under its `export` field only
+IEncodedExportNames(s) ==
+  {x \in DOMAIN s.exports : s.nodes[s.exports[x]].k # "def"}
+  \cup UNION {{IF DEV_DefRename THEN s.nodes[n].exp ELSE x : x \in NamesOf(s, n)}
+                : n \in {m \in ILive(s) : s.nodes[m].k = "def"}}
+
 IEncodeOutcome(s) ==
   LET abs == AbsView(s)
   IN IF HasCycle(abs) THEN {"GraphContainsCycle"}
@@ -215,6 +233,7 @@ IEncodeOutcome(s) ==
      ELSE IF IImportsImplicit(s) \cap DOMAIN s.imports # {} THEN {"ImplicitImportConflict"}
      ELSE IF \E i \in IInstNodes(s) : s.nodes[i].sat # {e.lab : e \in {x \in In(s, i) : x.t = "arg"}}
           THEN {"ValidationFailure"}
+     ELSE IF DEV_UndefDep /\ KF_UndefDep(s) /\ EncodeOutcome(abs) = {"ok"} THEN {"ValidationFailure"}
      ELSE EncodeOutcome(abs)
 
 (***************************************************************************)
@@ -265,7 +284,8 @@ Consistent ==
 QueriesAgree ==
   ~g.panic =>
     /\ IImportsImplicit(g) = GraphImportsImplicit(AbsView(g))
-    /\ IEncodeOutcome(g) \subseteq EncodeOutcome(AbsView(g))
+    /\ (~KF_UndefDep(g) => IEncodeOutcome(g) \subseteq EncodeOutcome(AbsView(g)))
+    /\ (~KF_DefRename(g) => IEncodedExportNames(g) = DOMAIN AbsView(g).exports)
 
 \* every step is a step the contract allows, with the contract's successor state
 RefStep ==
